@@ -53,6 +53,14 @@ def build_engine(spec, weights=None):
         e.rule_blocks.append(fl.RuleBlock(rb.get("name", "rb%d" % bi), description=rb.get("description", ""), enabled=rb.get("enabled", True),
                                           conjunction=mk(rb.get("conjunction")), disjunction=mk(rb.get("disjunction")),
                                           implication=mk(rb.get("implication")), activation=mk(rb.get("activation", ("General",))), rules=rules))
+    if spec.get("share_components"):
+        # one defuzzifier / aggregation / operator object installed everywhere (what Engine.configure does)
+        first = e.output_variables[0]
+        for ov in e.output_variables[1:]:
+            ov.defuzzifier = first.defuzzifier
+            ov.aggregation = first.aggregation
+        for rb in e.rule_blocks[1:]:
+            rb.conjunction, rb.disjunction, rb.implication, rb.activation = (getattr(e.rule_blocks[0], k) for k in ("conjunction", "disjunction", "implication", "activation"))
     return e
 '''
 
